@@ -239,10 +239,75 @@ def check_case(case, rec):
                 break
 
 
+def make_nonames_case(gen, rng):
+    """Spreadsheet without a header row: integer column identifiers, cell-level and row-level issues mixed."""
+    gen.used = set()
+    ncols = rng.randrange(2, 5)
+    tagcols = sorted(rng.sample(range(ncols), rng.randrange(1, ncols + 1)))
+    rows = []
+    for _ in range(rng.randrange(1, 6)):
+        row = []
+        shared = gen.atom()
+        for c in range(ncols):
+            q = rng.random()
+            if c not in tagcols:
+                row.append(rng.choice(["x", "1", "n/a"]))
+            elif q < 0.15:
+                row.append("n/a")
+            elif q < 0.45:
+                row.append(annot.render([shared] + ([gen.atom()] if rng.random() < 0.5 else []), rng))   # repeated across columns
+            elif q < 0.6:
+                m = annot.mutate(gen, [gen.atom()], rng.choice(["unknown-tag", "bad-value", "empty-group", "double-comma"]), rng)
+                row.append(m["text"] if m else "n/a")
+            else:
+                row.append(annot.render(gen.annotation(depth=2, temporal=False, size=rng.randrange(1, 3), reset=False), rng))
+        rows.append(row)
+    return dict(kind="spreadsheet-nonames", rows=rows, tagcols=tagcols)
+
+
+def check_nonames(case, rec):
+    from hed.models.spreadsheet_input import SpreadsheetInput
+    schema = env.schema(case["version"])
+    text = "\n".join("\t".join(r) for r in case["rows"]) + "\n"
+    n = len(case["rows"])
+    try:
+        obj = SpreadsheetInput(io.StringIO(text), file_type=".tsv", has_column_names=False, tag_columns=case["tagcols"])
+        issues = obj.validate(schema)
+    except Exception as ex:  # noqa
+        rec.violation(f"validation of a spreadsheet without column names raised {type(ex).__name__}", case,
+                      key="sort-issues-mixed-types" if type(ex).__name__ == "TypeError" else None)
+        return
+    rec.mon("no-exception")
+    rec.mon("location-well-formed", len(issues))
+    for i in issues:
+        r, c = i.get("ec_row"), i.get("ec_column")
+        if r is not None and not (1 <= r <= n):
+            rec.violation("issue labelled with a row outside 1..n (file without header)", dict(case, ec_row=r))
+            return
+        if c is not None and c not in case["tagcols"]:
+            rec.violation("issue names a column that holds no annotation", dict(case, ec_column=str(c)))
+            return
+        if r is not None and c is not None and i.get("ec_HedString") is not None:
+            if i["ec_HedString"].get_original_hed_string() != case["rows"][r - 1][c]:
+                rec.violation("(row, column) of an issue does not hold the text the issue was raised on",
+                              dict(case, ec_row=r, ec_column=c))
+                return
+
+
 def run_shard(shard, rec):
     rng = rec.rng
     rng.seed(f"c07-{shard['stream']}-{rng.random()}")
     gen = annot.AnnotGen(schema_xml.load(shard["version"]), rng)
+    for k in range(shard["n"] // 3):
+        try:
+            case = make_nonames_case(gen, rng)
+        except RuntimeError:
+            rec.discard()
+            continue
+        case["version"] = shard["version"]
+        rec.case(json.dumps(case, sort_keys=True), len(case["rows"]) >= 2)
+        check_nonames(case, rec)
+        rec.count("input-kind", case["kind"])
     for k in range(shard["n"]):
         try:
             case = make_case(gen, rng)
@@ -262,4 +327,7 @@ def run_shard(shard, rec):
 
 
 def replay(case, rec):
-    check_case(case, rec)
+    if case.get("kind") == "spreadsheet-nonames":
+        check_nonames(case, rec)
+    else:
+        check_case(case, rec)
